@@ -190,7 +190,8 @@ pub struct Names {
 /// none of the staking parameters is the module default (TOKEN, 60 s, 10 %), so that a configured
 /// value being ignored somewhere shows
 pub const DENOM: &str = "ustake";
-pub const FOREIGN: &str = "other";
+/// a foreign denomination that differs from the bonded one in letter case only
+pub const FOREIGN: &str = "USTAKE";
 pub const UNBONDING: u64 = 50;
 pub const APR_PCT: u32 = 12;
 pub const YEAR: u64 = 60 * 60 * 24 * 365;
